@@ -263,6 +263,27 @@ def seq_scenarios(max_n=3):
     return out
 
 
+def _is_boundary(expr, fn_node, loop):
+    """``expr`` denotes the first or the last position of the enumerated sequence: 0, 1, len(xs) - 1, len(xs) (through names assigned
+    once outside the loop)"""
+    from engine.linear import form, Lin, NotLinear
+    from .ctxuse import single_defs
+    inside = {id(x) for x in ast.walk(loop)}
+    defs = {k: v[0] for k, v in single_defs(fn_node).items() if len(v) == 1 and id(v[0]) not in inside}
+    try:
+        fm = form(expr, defs)
+    except (NotLinear, Exception):
+        return False
+    if not isinstance(fm, Lin):
+        return False
+    if not fm.terms:
+        return fm.const in (0, 1)
+    if len(fm.terms) == 1:
+        (atom_, coef), = fm.terms.items()
+        return coef == 1 and atom_.startswith('len(') and fm.const in (0, -1)
+    return False
+
+
 def uniform_in_index(fn_node, loop):
     """the loop body looks at the loop index only through ``last = idx == len(xs) - 1``"""
     if not (isinstance(loop.target, ast.Tuple) and isinstance(loop.iter, ast.Call) and
@@ -284,11 +305,12 @@ def uniform_in_index(fn_node, loop):
             if not (isinstance(n, ast.Name) and n.id == idx.id):
                 continue
             p = par.get(id(n))
-            # position test: idx compared for (in)equality with a loop-invariant expression
-            if isinstance(p, ast.Compare) and len(p.ops) == 1 and isinstance(p.ops[0], (ast.Eq, ast.NotEq)):
+            # position test: idx compared with a loop-invariant boundary position (first / last element), however it is spelled:
+            # idx == len(xs) - 1, idx < last_idx, idx != 0, idx >= 1 ...
+            if isinstance(p, ast.Compare) and len(p.ops) == 1 and isinstance(p.ops[0], (ast.Eq, ast.NotEq, ast.Lt, ast.LtE, ast.Gt, ast.GtE)):
                 other = p.comparators[0] if p.left is n else p.left
                 names = {x.id for x in ast.walk(other) if isinstance(x, ast.Name)}
-                if not (names & assigned):
+                if not (names & assigned) and (isinstance(p.ops[0], (ast.Eq, ast.NotEq)) or _is_boundary(other, fn_node, loop)):
                     continue
             # in-place replacement of the current element: xs[idx] = ...
             if isinstance(p, ast.Subscript) and p.slice is n and isinstance(p.ctx, ast.Store):
